@@ -691,7 +691,16 @@ def job_conc16(j):
             col.violation("C16", "lockset_build_state_touched_by_thread_not_owning_the_build_lock", dict(
                 op=op, object=which, innermost_tawazi_frame=inner, outermost_tawazi_frame=outer, build_lock_held_by_other_thread=lock_held,
                 count=cnt), {"kind": "rerun_job", "job": dict(j)})
-    return col.result()
+    res = col.result()
+    if j.get("pid", "C16") != "C16":
+        # the workload re-used by another property's check: only the named clauses count, reported under that property
+        only = j.get("only") or []
+        keep = []
+        for v in res["violations"]:
+            if v["prop"] == "C16" and any(v["mech"] == o or (o.endswith("*") and v["mech"].startswith(o[:-1])) for o in only):
+                keep.append(dict(v, prop=j["pid"]))
+        res["violations"] = keep
+    return res
 
 
 # ------------------------------------------------------------------------------------------------ C17
